@@ -71,12 +71,25 @@ class Pair(FactAnalysis):
                 if xp is not None:
                     for q in self.equal_places(st, xp):
                         new.add(('SYNC', q, tp))
+                elif isinstance(value.args[0], (ast.BinOp, ast.UnaryOp)):
+                    # the parameter vector is an expression: whoever is bound to the SAME expression later, with none of its names re-bound in
+                    # between, holds the parameters these marginals belong to
+                    arg = value.args[0]
+                    new.add(('SYNCX', U(arg), tp, tuple(sorted({n.id for n in ast.walk(arg) if isinstance(n, ast.Name)}))))
             if self.model_call(value, st, 'mle'):
                 xp = self.place(value.args[0], st)
                 if xp is not None:
                     for q in self.equal_places(st, xp):
                         new.add(('MLE', tp, q))
+        if vp is None and isinstance(value, (ast.BinOp, ast.UnaryOp)):
+            for f in list(st.facts):
+                if f[0] == 'SYNCX' and f[1] == U(value):
+                    new.add(('SYNC', tp, f[2]))
         return new
+
+    def on_kill(self, st, place):
+        root = place.split('.')[0]
+        st.facts = {f for f in st.facts if not (f[0] == 'SYNCX' and (root in f[3] or place == f[2]))}
 
     def on_element_store(self, st, base, target, value, stmt):
         for q in self.equal_places(st, base):
